@@ -51,200 +51,7 @@ theorem lowerBin_ok (d : Bool) (op : BinOp) (t : Ty) (sop : SOp) (tr : Ty) (a b 
   cases t <;> cases op <;> simp [lowerBin] at h <;> obtain ⟨h1, _⟩ := h <;> subst h1 <;>
     simp_all [instrOk, instrTotal, instrDiv]
 
-theorem lowerE_ok (d : Bool) : ∀ (e : Expr) (nm : NEnv) (next : Nat) (aa : SArg) (t : Ty) (code : List SInstr)
-    (next' : Nat), lowerE nm e next = some (aa, t, code, next') → (d = true ∨ noDivE e = true) → AllOk d code
-  | .lit t n, nm, next, aa, t', code, next', h, _ => by
-    cases t <;> simp only [lowerE] at h
-    · simp only [Option.some.injEq, Prod.mk.injEq] at h
-      obtain ⟨_, _, h3, _⟩ := h; subst h3; exact AllOk_nil d
-    · split at h
-      · simp only [Option.some.injEq, Prod.mk.injEq] at h
-        obtain ⟨_, _, h3, _⟩ := h; subst h3; exact AllOk_nil d
-      · cases h
-    · split at h
-      · simp only [Option.some.injEq, Prod.mk.injEq] at h
-        obtain ⟨_, _, h3, _⟩ := h; subst h3; exact AllOk_nil d
-      · cases h
-    · cases h
-    · cases h
-  | .var x, nm, next, aa, t, code, next', h, _ => by
-    simp only [lowerE] at h
-    cases hf : nm.find x with
-    | none => simp [hf] at h
-    | some b =>
-      cases b with
-      | val id t0 =>
-        simp only [hf] at h
-        cases hw : sbits t0 with
-        | none => simp [hw] at h
-        | some w =>
-          simp only [hw, Option.some.injEq, Prod.mk.injEq] at h
-          obtain ⟨_, _, h3, _⟩ := h; subst h3; exact AllOk_nil d
-      | konst n =>
-        simp only [hf, Option.some.injEq, Prod.mk.injEq] at h
-        obtain ⟨_, _, h3, _⟩ := h; subst h3; exact AllOk_nil d
-  | .bin op a b, nm, next, aa, t, code, next', h, hd => by
-    simp only [lowerE] at h
-    cases hla : lowerE nm a next with
-    | none => simp [hla] at h
-    | some ra =>
-      obtain ⟨aa1, ta, ca, n1⟩ := ra
-      simp only [hla] at h
-      cases hlb : lowerE nm b n1 with
-      | none => simp [hlb] at h
-      | some rb =>
-        obtain ⟨ba, tb, cb, n2⟩ := rb
-        simp only [hlb] at h
-        split at h
-        · cases h
-        · split at h
-          · cases h
-          · have hda : d = true ∨ noDivE a = true := by
-              rcases hd with e | e
-              · exact Or.inl e
-              · simp only [noDivE, Bool.and_eq_true] at e; exact Or.inr e.1.2
-            have hdb : d = true ∨ noDivE b = true := by
-              rcases hd with e | e
-              · exact Or.inl e
-              · simp only [noDivE, Bool.and_eq_true] at e; exact Or.inr e.2
-            have hdo : d = true ∨ (op ≠ .div ∧ op ≠ .mod) := by
-              rcases hd with e | e
-              · exact Or.inl e
-              · simp only [noDivE, Bool.and_eq_true, bne_iff_ne, ne_eq] at e; exact Or.inr ⟨e.1.1.1, e.1.1.2⟩
-            have hab := AllOk_append (lowerE_ok d a nm next aa1 ta ca n1 hla hda) (lowerE_ok d b nm n1 ba tb cb n2 hlb hdb)
-            cases hlo : lowerBin op ta with
-            | none => simp [hlo] at h
-            | some r0 =>
-              obtain ⟨sop, tr⟩ := r0
-              simp only [hlo] at h
-              cases hwr : sbits tr with
-              | none => simp [hwr] at h
-              | some wr =>
-                simp only [hwr, Option.some.injEq, Prod.mk.injEq] at h
-                obtain ⟨_, _, h3, _⟩ := h
-                subst h3
-                exact AllOk_append hab (AllOk_one (lowerBin_ok d op ta sop tr _ _ _ hlo hdo))
-  | .shift left a k, nm, next, aa, t, code, next', h, hd => by
-    simp only [lowerE] at h
-    cases hla : lowerE nm a next with
-    | none => simp [hla] at h
-    | some ra =>
-      obtain ⟨aa1, ta, ca, n1⟩ := ra
-      simp only [hla] at h
-      split at h
-      · cases h
-      · cases hnt : numTy ta with
-        | none => simp [hnt] at h
-        | some r0 =>
-          obtain ⟨s, w⟩ := r0
-          simp only [hnt, Option.some.injEq, Prod.mk.injEq] at h
-          obtain ⟨_, _, h3, _⟩ := h
-          subst h3
-          refine AllOk_append (lowerE_ok d a nm next aa1 ta ca n1 hla (by simpa [noDivE] using hd)) (AllOk_one ?_)
-          cases left <;> cases s <;> simp [instrOk, instrTotal]
-  | .not a, nm, next, aa, t, code, next', h, hd => by
-    simp only [lowerE] at h
-    cases hla : lowerE nm a next with
-    | none => simp [hla] at h
-    | some ra =>
-      obtain ⟨aa1, ta, ca, n1⟩ := ra
-      simp only [hla] at h
-      split at h
-      · cases h
-      · cases ta <;> simp only [Option.some.injEq, Prod.mk.injEq, reduceCtorEq] at h
-        obtain ⟨_, _, h3, _⟩ := h
-        subst h3
-        exact AllOk_append (lowerE_ok d a nm next aa1 .bool ca n1 hla (by simpa [noDivE] using hd))
-          (AllOk_one (by simp [instrOk, instrTotal]))
-  | .neg a, nm, next, aa, t, code, next', h, hd => by
-    simp only [lowerE] at h
-    cases hla : lowerE nm a next with
-    | none => simp [hla] at h
-    | some ra =>
-      obtain ⟨aa1, ta, ca, n1⟩ := ra
-      simp only [hla] at h
-      split at h
-      · cases h
-      · cases hnt : numTy ta with
-        | none => simp [hnt] at h
-        | some r0 =>
-          obtain ⟨s, w⟩ := r0
-          simp only [hnt, Option.some.injEq, Prod.mk.injEq] at h
-          obtain ⟨_, _, h3, _⟩ := h
-          subst h3
-          exact AllOk_append (lowerE_ok d a nm next aa1 ta ca n1 hla (by simpa [noDivE] using hd))
-            (AllOk_one (by simp [instrOk, instrTotal]))
-  | .cast t0 a, nm, next, aa, t, code, next', h, hd => by
-    simp only [lowerE] at h
-    cases hla : lowerE nm a next with
-    | none => simp [hla] at h
-    | some ra =>
-      obtain ⟨aa1, ta, ca, n1⟩ := ra
-      simp only [hla] at h
-      have iha := lowerE_ok d a nm next aa1 ta ca n1 hla (by simpa [noDivE] using hd)
-      cases hnt : numTy ta with
-      | none => simp [hnt] at h
-      | some r0 =>
-        obtain ⟨s, w⟩ := r0
-        cases hnt0 : numTy t0 with
-        | none => simp [hnt, hnt0] at h
-        | some r1 =>
-          obtain ⟨s', w'⟩ := r1
-          simp only [hnt, hnt0] at h
-          split at h
-          · split at h
-            · simp only [Option.some.injEq, Prod.mk.injEq] at h
-              obtain ⟨_, _, h3, _⟩ := h
-              subst h3
-              exact iha
-            · cases h
-          · split at h
-            · cases h
-            · simp only [Option.some.injEq, Prod.mk.injEq] at h
-              obtain ⟨_, _, h3, _⟩ := h
-              subst h3
-              refine AllOk_append iha (AllOk_one ?_)
-              split <;> simp [instrOk, instrTotal]
-  | .idx _ _, _, _, _, _, _, _, h, _ => by simp [lowerE] at h
-  | .fld _ _, _, _, _, _, _, _, h, _ => by simp [lowerE] at h
-  | .call _ _, _, _, _, _, _, _, h, _ => by simp [lowerE] at h
-
-theorem lowerRet_ok (d : Bool) : ∀ (es : List Expr) (nm : NEnv) (next : Nat) (rs : List (Nat × Nat))
-    (code : List SInstr) (next' : Nat), lowerRet nm es next = some (rs, code, next') →
-    (d = true ∨ noDivEs es = true) → AllOk d code
-  | [], nm, next, rs, code, next', h, _ => by
-    simp only [lowerRet, Option.some.injEq, Prod.mk.injEq] at h
-    obtain ⟨_, h2, _⟩ := h; subst h2; exact AllOk_nil d
-  | e :: es, nm, next, rs, code, next', h, hd => by
-    simp only [lowerRet] at h
-    cases hl : lowerE nm e next with
-    | none => simp [hl] at h
-    | some q =>
-      obtain ⟨aa, t, ce, n1⟩ := q
-      simp only [hl] at h
-      cases hw : sbits t with
-      | none => simp [hw] at h
-      | some w =>
-        simp only [hw] at h
-        cases hr : lowerRet nm es (n1 + 1) with
-        | none => simp [hr] at h
-        | some q2 =>
-          obtain ⟨rs2, cs, n2⟩ := q2
-          simp only [hr, Option.some.injEq, Prod.mk.injEq] at h
-          obtain ⟨_, h2, _⟩ := h
-          subst h2
-          have hde : d = true ∨ noDivE e = true := by
-            rcases hd with e1 | e1
-            · exact Or.inl e1
-            · simp only [noDivEs, Bool.and_eq_true] at e1; exact Or.inr e1.1
-          have hds : d = true ∨ noDivEs es = true := by
-            rcases hd with e1 | e1
-            · exact Or.inl e1
-            · simp only [noDivEs, Bool.and_eq_true] at e1; exact Or.inr e1.2
-          exact AllOk_append (AllOk_append (lowerE_ok d e nm next aa t ce n1 hl hde) (AllOk_one (instrOk_mov d _ _ _)))
-            (lowerRet_ok d es nm (n1 + 1) rs2 cs n2 hr hds)
-
-theorem matPhis_ok (d : Bool) (c : Nat) : ∀ (rt rf : List (Nat × Nat)) (k : Nat) (rs : List (Nat × Nat))
+theorem matPhis_ok (d : Bool) (c : Nat) : ∀ (rt rf : List (Nat × Ty)) (k : Nat) (rs : List (Nat × Ty))
     (code : List SInstr) (k' : Nat), matPhis c rt rf k = some (rs, code, k') → AllOk d code
   | [], [], k, rs, code, k', h => by
     simp only [matPhis, Option.some.injEq, Prod.mk.injEq] at h
@@ -264,7 +71,7 @@ theorem matPhis_ok (d : Bool) (c : Nat) : ∀ (rt rf : List (Nat × Nat)) (k : N
         exact AllOk_cons (instrOk_phi d _ _ _ _) (matPhis_ok d c r r' (k + 1) rs2 code2 k2 hm)
     · cases h
 
-theorem mat_ok (d : Bool) : ∀ (t : RTree) (k : Nat) (rs : List (Nat × Nat)) (code : List SInstr) (k' : Nat),
+theorem mat_ok (d : Bool) : ∀ (t : RTree) (k : Nat) (rs : List (Nat × Ty)) (code : List SInstr) (k' : Nat),
     t.mat k = some (rs, code, k') → AllOk d code
   | .fall, _, _, _, _, h => by simp [RTree.mat] at h
   | .ret rs0, k, rs, code, k', h => by
@@ -299,12 +106,8 @@ theorem mergeB_ok (d : Bool) (c : Nat) (b b' : Bind) (k : Nat) (b2 : Bind) (code
     · split at h
       · simp only [Option.some.injEq, Prod.mk.injEq] at h
         obtain ⟨_, h2, _⟩ := h; subst h2; exact AllOk_nil d
-      · rename_i t _ _ _ _
-        cases hw : sbits t with
-        | none => simp [hw] at h
-        | some w =>
-          simp only [hw, Option.some.injEq, Prod.mk.injEq] at h
-          obtain ⟨_, h2, _⟩ := h; subst h2; exact AllOk_one (instrOk_phi d _ _ _ _)
+      · simp only [Option.some.injEq, Prod.mk.injEq] at h
+        obtain ⟨_, h2, _⟩ := h; subst h2; exact AllOk_one (instrOk_phi d _ _ _ _)
     · cases h
   · cases h
   · cases h
@@ -380,225 +183,700 @@ theorem joinN_ok (d : Bool) (c : Nat) (nt nf : Option NEnv) (k : Nat) (nms : Opt
       subst h2
       exact mergeE_ok d c n1 n2 k nm cm k2 hm
 
-/-- All instructions the statement lowering emits are well formed, and
-division-free when the source is. -/
-theorem lower_stmt_ok (d : Bool) : ∀ f : Nat,
-    (∀ (s : Stmt) (nm : NEnv) (next : Nat) (r : LRes), lowerS f nm next s = some r →
-      (d = true ∨ noDivS s = true) → AllOk d r.code) ∧
-    (∀ (ss : List Stmt) (nm : NEnv) (next : Nat) (r : LRes), lowerB f nm next ss = some r →
-      (d = true ∨ noDivB ss = true) → AllOk d r.code) ∧
-    (∀ (i : String) (cur : Int) (c : Cmp) (hi stp : Int) (body : List Stmt) (nm : NEnv) (next : Nat) (r : LRes),
-      lowerFor f i cur c hi stp body nm next = some r → (d = true ∨ noDivB body = true) → AllOk d r.code) := by
+theorem instrOk_slice (d : Bool) (a : SArg) (off w id : Nat) : instrOk d (sliceI a off w id) = true := by
+  simp [instrOk, instrTotal, sliceI]
+
+def EOk (d : Bool) (P : Prog) (f : Nat) : Prop :=
+  ∀ (e : Expr) (nm : NEnv) (next : Nat) (aa : SArg) (t : Ty) (code : List SInstr) (next' : Nat),
+    lowerE P f nm e next = some (aa, t, code, next') → (d = true ∨ noDivE e = true) → AllOk d code
+
+def ArgsOk (d : Bool) (P : Prog) (f : Nat) : Prop :=
+  ∀ (es : List Expr) (nm : NEnv) (next : Nat) (avs : List (SArg × Ty)) (code : List SInstr) (next' : Nat),
+    lowerArgs P f nm es next = some (avs, code, next') → (d = true ∨ noDivEs es = true) → AllOk d code
+
+def CallOk (d : Bool) (P : Prog) (f : Nat) : Prop :=
+  ∀ (nm : NEnv) (g : Nat) (args : List Expr) (next : Nat) (rs : List (Nat × Ty)) (code : List SInstr) (next' : Nat),
+    lowerCall P f nm g args next = some (rs, code, next') → (d = true ∨ noDivEs args = true) → AllOk d code
+
+def RetOk (d : Bool) (P : Prog) (f : Nat) : Prop :=
+  ∀ (es : List Expr) (nm : NEnv) (next : Nat) (rs : List (Nat × Ty)) (code : List SInstr) (next' : Nat),
+    lowerRet P f nm es next = some (rs, code, next') → (d = true ∨ noDivEs es = true) → AllOk d code
+
+def SOk (d : Bool) (P : Prog) (f : Nat) : Prop :=
+  ∀ (s : Stmt) (nm : NEnv) (next : Nat) (r : LRes), lowerS P f nm next s = some r →
+    (d = true ∨ noDivS s = true) → AllOk d r.code
+
+def BOk (d : Bool) (P : Prog) (f : Nat) : Prop :=
+  ∀ (ss : List Stmt) (nm : NEnv) (next : Nat) (r : LRes), lowerB P f nm next ss = some r →
+    (d = true ∨ noDivB ss = true) → AllOk d r.code
+
+def FOk (d : Bool) (P : Prog) (f : Nat) : Prop :=
+  ∀ (i : String) (cur : Int) (c : Cmp) (hi stp : Int) (body : List Stmt) (nm : NEnv) (next : Nat) (r : LRes),
+    lowerFor P f i cur c hi stp body nm next = some r → (d = true ∨ noDivB body = true) → AllOk d r.code
+
+theorem or_imp {d : Bool} {p q : Prop} (h : d = true ∨ p) (hpq : p → q) : d = true ∨ q := by
+  rcases h with e | e
+  · exact Or.inl e
+  · exact Or.inr (hpq e)
+
+theorem expr_ok_succ (d : Bool) (P : Prog) (f : Nat) (ihE : EOk d P f) (ihC : CallOk d P f) : EOk d P (f + 1) := by
+  intro e nm next aa t code next' h hd
+  cases e with
+  | lit t0 n =>
+    cases t0 <;> simp only [lowerE] at h
+    · simp only [Option.some.injEq, Prod.mk.injEq] at h
+      obtain ⟨_, _, h3, _⟩ := h; subst h3; exact AllOk_nil d
+    · split at h
+      · simp only [Option.some.injEq, Prod.mk.injEq] at h
+        obtain ⟨_, _, h3, _⟩ := h; subst h3; exact AllOk_nil d
+      · cases h
+    · split at h
+      · simp only [Option.some.injEq, Prod.mk.injEq] at h
+        obtain ⟨_, _, h3, _⟩ := h; subst h3; exact AllOk_nil d
+      · cases h
+    · cases h
+    · cases h
+  | var x =>
+    simp only [lowerE] at h
+    cases hf : nm.find x with
+    | none => simp [hf] at h
+    | some b =>
+      cases b with
+      | val id t0 =>
+        simp only [hf, Option.some.injEq, Prod.mk.injEq] at h
+        obtain ⟨_, _, h3, _⟩ := h; subst h3; exact AllOk_nil d
+      | konst n =>
+        simp only [hf, Option.some.injEq, Prod.mk.injEq] at h
+        obtain ⟨_, _, h3, _⟩ := h; subst h3; exact AllOk_nil d
+  | bin op a b =>
+    simp only [lowerE] at h
+    cases hla : lowerE P f nm a next with
+    | none => simp [hla] at h
+    | some ra =>
+      obtain ⟨aa1, ta, ca, n1⟩ := ra
+      simp only [hla] at h
+      cases hlb : lowerE P f nm b n1 with
+      | none => simp [hlb] at h
+      | some rb =>
+        obtain ⟨ba, tb, cb, n2⟩ := rb
+        simp only [hlb] at h
+        split at h
+        · cases h
+        · split at h
+          · cases h
+          · have hda : d = true ∨ noDivE a = true :=
+              or_imp hd (fun e => by simp only [noDivE, Bool.and_eq_true] at e; exact e.1.2)
+            have hdb : d = true ∨ noDivE b = true :=
+              or_imp hd (fun e => by simp only [noDivE, Bool.and_eq_true] at e; exact e.2)
+            have hdo : d = true ∨ (op ≠ .div ∧ op ≠ .mod) :=
+              or_imp hd (fun e => by
+                simp only [noDivE, Bool.and_eq_true, bne_iff_ne, ne_eq] at e; exact ⟨e.1.1.1, e.1.1.2⟩)
+            have hab := AllOk_append (ihE a nm next aa1 ta ca n1 hla hda) (ihE b nm n1 ba tb cb n2 hlb hdb)
+            cases hlo : lowerBin op ta with
+            | none => simp [hlo] at h
+            | some r0 =>
+              obtain ⟨sop, tr⟩ := r0
+              simp only [hlo, Option.some.injEq, Prod.mk.injEq] at h
+              obtain ⟨_, _, h3, _⟩ := h
+              subst h3
+              exact AllOk_append hab (AllOk_one (lowerBin_ok d op ta sop tr _ _ _ hlo hdo))
+  | shift left a k =>
+    simp only [lowerE] at h
+    cases hla : lowerE P f nm a next with
+    | none => simp [hla] at h
+    | some ra =>
+      obtain ⟨aa1, ta, ca, n1⟩ := ra
+      simp only [hla] at h
+      split at h
+      · cases h
+      · cases hnt : numTy ta with
+        | none => simp [hnt] at h
+        | some r0 =>
+          obtain ⟨s, w⟩ := r0
+          simp only [hnt, Option.some.injEq, Prod.mk.injEq] at h
+          obtain ⟨_, _, h3, _⟩ := h
+          subst h3
+          refine AllOk_append (ihE a nm next aa1 ta ca n1 hla (by simpa [noDivE] using hd)) (AllOk_one ?_)
+          cases left <;> cases s <;> simp [instrOk, instrTotal]
+  | not a =>
+    simp only [lowerE] at h
+    cases hla : lowerE P f nm a next with
+    | none => simp [hla] at h
+    | some ra =>
+      obtain ⟨aa1, ta, ca, n1⟩ := ra
+      simp only [hla] at h
+      split at h
+      · cases h
+      · cases ta <;> simp only [Option.some.injEq, Prod.mk.injEq, reduceCtorEq] at h
+        obtain ⟨_, _, h3, _⟩ := h
+        subst h3
+        exact AllOk_append (ihE a nm next aa1 .bool ca n1 hla (by simpa [noDivE] using hd))
+          (AllOk_one (by simp [instrOk, instrTotal]))
+  | neg a =>
+    simp only [lowerE] at h
+    cases hla : lowerE P f nm a next with
+    | none => simp [hla] at h
+    | some ra =>
+      obtain ⟨aa1, ta, ca, n1⟩ := ra
+      simp only [hla] at h
+      split at h
+      · cases h
+      · cases hnt : numTy ta with
+        | none => simp [hnt] at h
+        | some r0 =>
+          obtain ⟨s, w⟩ := r0
+          simp only [hnt, Option.some.injEq, Prod.mk.injEq] at h
+          obtain ⟨_, _, h3, _⟩ := h
+          subst h3
+          exact AllOk_append (ihE a nm next aa1 ta ca n1 hla (by simpa [noDivE] using hd))
+            (AllOk_one (by simp [instrOk, instrTotal]))
+  | cast t0 a =>
+    simp only [lowerE] at h
+    cases hla : lowerE P f nm a next with
+    | none => simp [hla] at h
+    | some ra =>
+      obtain ⟨aa1, ta, ca, n1⟩ := ra
+      simp only [hla] at h
+      have iha := ihE a nm next aa1 ta ca n1 hla (by simpa [noDivE] using hd)
+      cases hnt : numTy ta with
+      | none => simp [hnt] at h
+      | some r0 =>
+        obtain ⟨s, w⟩ := r0
+        cases hnt0 : numTy t0 with
+        | none => simp [hnt, hnt0] at h
+        | some r1 =>
+          obtain ⟨s', w'⟩ := r1
+          simp only [hnt, hnt0] at h
+          split at h
+          · split at h
+            · simp only [Option.some.injEq, Prod.mk.injEq] at h
+              obtain ⟨_, _, h3, _⟩ := h
+              subst h3
+              exact iha
+            · cases h
+          · split at h
+            · cases h
+            · simp only [Option.some.injEq, Prod.mk.injEq] at h
+              obtain ⟨_, _, h3, _⟩ := h
+              subst h3
+              refine AllOk_append iha (AllOk_one ?_)
+              split <;> simp [instrOk, instrTotal]
+  | idx a i =>
+    simp only [lowerE] at h
+    have hda : d = true ∨ noDivE a = true :=
+      or_imp hd (fun e => by simp only [noDivE, Bool.and_eq_true] at e; exact e.1)
+    have hdi : d = true ∨ noDivE i = true :=
+      or_imp hd (fun e => by simp only [noDivE, Bool.and_eq_true] at e; exact e.2)
+    cases hla : lowerE P f nm a next with
+    | none => simp [hla] at h
+    | some ra =>
+      obtain ⟨aa1, ta, ca, n1⟩ := ra
+      have iha := ihE a nm next aa1 ta ca n1 hla hda
+      cases ta with
+      | arr n e =>
+        simp only [hla] at h
+        split at h
+        · cases h
+        · cases hci : constIdx nm i with
+          | some k =>
+            simp only [hci] at h
+            split at h
+            · simp only [Option.some.injEq, Prod.mk.injEq] at h
+              obtain ⟨_, _, h3, _⟩ := h
+              subst h3
+              exact AllOk_append iha (AllOk_one (instrOk_slice d _ _ _ _))
+            · cases h
+          | none =>
+            simp only [hci] at h
+            cases hli : lowerE P f nm i n1 with
+            | none => simp [hli] at h
+            | some ri =>
+              obtain ⟨ia, ti, ci, n2⟩ := ri
+              have ihi := ihE i nm n1 ia ti ci n2 hli hdi
+              cases ti with
+              | uint w =>
+                simp only [hli] at h
+                split at h
+                · cases h
+                · split at h
+                  · simp only [Option.some.injEq, Prod.mk.injEq] at h
+                    obtain ⟨_, _, h3, _⟩ := h
+                    subst h3
+                    exact AllOk_append (AllOk_append iha ihi) (AllOk_one (by simp [instrOk, instrTotal]))
+                  · cases h
+              | bool => simp [hli] at h
+              | int _ => simp [hli] at h
+              | arr _ _ => simp [hli] at h
+              | struct _ => simp [hli] at h
+      | bool => simp [hla] at h
+      | int _ => simp [hla] at h
+      | uint _ => simp [hla] at h
+      | struct _ => simp [hla] at h
+  | fld a k =>
+    simp only [lowerE] at h
+    cases hla : lowerE P f nm a next with
+    | none => simp [hla] at h
+    | some ra =>
+      obtain ⟨aa1, ta, ca, n1⟩ := ra
+      have iha := ihE a nm next aa1 ta ca n1 hla (by simpa [noDivE] using hd)
+      cases ta with
+      | struct fs =>
+        simp only [hla] at h
+        split at h
+        · cases h
+        · cases hfk : fs[k]? with
+          | none => simp [hfk] at h
+          | some tk =>
+            simp only [hfk, Option.some.injEq, Prod.mk.injEq] at h
+            obtain ⟨_, _, h3, _⟩ := h
+            subst h3
+            exact AllOk_append iha (AllOk_one (instrOk_slice d _ _ _ _))
+      | bool => simp [hla] at h
+      | int _ => simp [hla] at h
+      | uint _ => simp [hla] at h
+      | arr _ _ => simp [hla] at h
+  | call g args =>
+    simp only [lowerE] at h
+    cases hc : lowerCall P f nm g args next with
+    | none => simp [hc] at h
+    | some q =>
+      obtain ⟨rs, cc, n1⟩ := q
+      simp only [hc] at h
+      match rs, hc, h with
+      | [(id, t0)], hc, h =>
+        simp only [Option.some.injEq, Prod.mk.injEq] at h
+        obtain ⟨_, _, h3, _⟩ := h
+        subst h3
+        exact ihC nm g args next _ _ _ hc (by simpa [noDivE] using hd)
+      | [], _, h => simp at h
+      | _ :: _ :: _, _, h => simp at h
+
+theorem args_ok_succ (d : Bool) (P : Prog) (f : Nat) (ihE : EOk d P f) (ihA : ArgsOk d P f) : ArgsOk d P (f + 1) := by
+  intro es nm next avs code next' h hd
+  cases es with
+  | nil =>
+    simp only [lowerArgs, Option.some.injEq, Prod.mk.injEq] at h
+    obtain ⟨_, h2, _⟩ := h; subst h2; exact AllOk_nil d
+  | cons e es =>
+    simp only [lowerArgs] at h
+    cases hl : lowerE P f nm e next with
+    | none => simp [hl] at h
+    | some q =>
+      obtain ⟨aa, t, ce, n1⟩ := q
+      simp only [hl] at h
+      split at h
+      · cases h
+      · cases hr : lowerArgs P f nm es n1 with
+        | none => simp [hr] at h
+        | some q2 =>
+          obtain ⟨as, cs, n2⟩ := q2
+          simp only [hr, Option.some.injEq, Prod.mk.injEq] at h
+          obtain ⟨_, h2, _⟩ := h
+          subst h2
+          exact AllOk_append
+            (ihE e nm next aa t ce n1 hl (or_imp hd (fun e1 => by simp only [noDivEs, Bool.and_eq_true] at e1; exact e1.1)))
+            (ihA es nm n1 as cs n2 hr (or_imp hd (fun e1 => by simp only [noDivEs, Bool.and_eq_true] at e1; exact e1.2)))
+
+theorem bindArgs_ok (d : Bool) : ∀ (ps : List (String × Ty)) (avs : List (SArg × Ty)) (next : Nat) (sc : NScope)
+    (code : List SInstr) (next' : Nat), bindArgs ps avs next = some (sc, code, next') → AllOk d code
+  | [], [], _, _, _, _, h => by
+    simp only [bindArgs, Option.some.injEq, Prod.mk.injEq] at h
+    obtain ⟨_, h2, _⟩ := h; subst h2; exact AllOk_nil d
+  | [], _ :: _, _, _, _, _, h => by simp [bindArgs] at h
+  | _ :: _, [], _, _, _, _, h => by simp [bindArgs] at h
+  | (x, t) :: ps, (aa, ta) :: as, next, sc, code, next', h => by
+    simp only [bindArgs] at h
+    split at h
+    · cases hr : bindArgs ps as (next + 1) with
+      | none => simp [hr] at h
+      | some q =>
+        obtain ⟨sc2, c2, n2⟩ := q
+        simp only [hr, Option.some.injEq, Prod.mk.injEq] at h
+        obtain ⟨_, h2, _⟩ := h
+        subst h2
+        exact AllOk_cons (instrOk_mov d _ _ _) (bindArgs_ok d ps as (next + 1) sc2 c2 n2 hr)
+    · cases h
+
+theorem noDivP_get {P : Prog} {g : Nat} {fn : Func} (h : noDivP P = true) (hg : P[g]? = some fn) :
+    noDivB fn.body = true := by
+  simp only [noDivP, List.all_eq_true] at h
+  exact h fn (List.mem_of_getElem? hg)
+
+theorem call_ok_succ (d : Bool) (P : Prog) (hP : d = true ∨ noDivP P = true) (f : Nat) (ihA : ArgsOk d P f)
+    (ihB : BOk d P f) : CallOk d P (f + 1) := by
+  intro nm g args next rs code next' h hd
+  simp only [lowerCall] at h
+  cases hg : P[g]? with
+  | none => simp [hg] at h
+  | some fn =>
+    simp only [hg] at h
+    cases hla : lowerArgs P f nm args next with
+    | none => simp [hla] at h
+    | some q1 =>
+      obtain ⟨avs, ca, n1⟩ := q1
+      simp only [hla] at h
+      cases hba : bindArgs fn.params avs n1 with
+      | none => simp [hba] at h
+      | some q2 =>
+        obtain ⟨sc, cb, n2⟩ := q2
+        simp only [hba] at h
+        cases hlb : lowerB P f [sc] n2 fn.body with
+        | none => simp [hlb] at h
+        | some r =>
+          simp only [hlb] at h
+          cases hm : r.tree.mat r.next with
+          | none => simp [hm] at h
+          | some q3 =>
+            obtain ⟨rs0, cm, n3⟩ := q3
+            simp only [hm] at h
+            split at h
+            · simp only [Option.some.injEq, Prod.mk.injEq] at h
+              obtain ⟨_, h2, _⟩ := h
+              subst h2
+              exact AllOk_append (AllOk_append (AllOk_append (ihA args nm next avs ca n1 hla hd)
+                (bindArgs_ok d _ _ _ _ _ _ hba)) (ihB fn.body [sc] n2 r hlb (or_imp hP (fun e => noDivP_get e hg))))
+                (mat_ok d r.tree r.next rs0 cm n3 hm)
+            · cases h
+
+theorem ret_ok_succ (d : Bool) (P : Prog) (f : Nat) (ihE : EOk d P f) (ihR : RetOk d P f) : RetOk d P (f + 1) := by
+  intro es nm next rs code next' h hd
+  cases es with
+  | nil =>
+    simp only [lowerRet, Option.some.injEq, Prod.mk.injEq] at h
+    obtain ⟨_, h2, _⟩ := h; subst h2; exact AllOk_nil d
+  | cons e es =>
+    simp only [lowerRet] at h
+    cases hl : lowerE P f nm e next with
+    | none => simp [hl] at h
+    | some q =>
+      obtain ⟨aa, t, ce, n1⟩ := q
+      simp only [hl] at h
+      cases hr : lowerRet P f nm es (n1 + 1) with
+      | none => simp [hr] at h
+      | some q2 =>
+        obtain ⟨rs2, cs, n2⟩ := q2
+        simp only [hr, Option.some.injEq, Prod.mk.injEq] at h
+        obtain ⟨_, h2, _⟩ := h
+        subst h2
+        exact AllOk_append (AllOk_append
+          (ihE e nm next aa t ce n1 hl (or_imp hd (fun e1 => by simp only [noDivEs, Bool.and_eq_true] at e1; exact e1.1)))
+          (AllOk_one (instrOk_mov d _ _ _)))
+          (ihR es nm (n1 + 1) rs2 cs n2 hr (or_imp hd (fun e1 => by simp only [noDivEs, Bool.and_eq_true] at e1; exact e1.2)))
+
+theorem assignVal_ok (d : Bool) {nm nm' : NEnv} {lv : LVal} {va : SArg} {tv : Ty} {next n2 : Nat}
+    {code : List SInstr} (h : assignVal nm lv va tv next = some (nm', code, n2)) : AllOk d code := by
+  unfold assignVal at h
+  cases hf : nm.find lv.x with
+  | none => simp [hf] at h
+  | some b =>
+    cases b with
+    | konst _ => simp [hf] at h
+    | val id tx =>
+      simp only [hf] at h
+      cases hp : pathOff nm tx lv.path with
+      | none => simp [hp] at h
+      | some q =>
+        obtain ⟨off, lt⟩ := q
+        simp only [hp] at h
+        split at h
+        · cases hset : nm.set lv.x
+              (.val (storeCode lv.path va (.var id tx.bits) off lt.bits tx.bits next).2 tx) with
+          | none => simp [hset] at h
+          | some nm1 =>
+            simp only [hset, Option.some.injEq, Prod.mk.injEq] at h
+            obtain ⟨_, h2, _⟩ := h
+            subst h2
+            cases hpath : lv.path with
+            | nil => simp only [storeCode]; exact AllOk_one (instrOk_mov d _ _ _)
+            | cons ac p =>
+              cases ac with
+              | fld k => simp only [storeCode]; exact AllOk_one (by simp [instrOk, instrTotal])
+              | idx ie =>
+                simp only [storeCode]
+                exact AllOk_cons (by simp [instrOk, instrTotal]) (AllOk_one (instrOk_mov d _ _ _))
+        · cases h
+
+theorem assignAllVals_ok (d : Bool) : ∀ (lvs : List LVal) (rs : List (Nat × Ty)) (nm nm' : NEnv) (next n2 : Nat)
+    (code : List SInstr), assignAllVals nm lvs rs next = some (nm', code, n2) → AllOk d code
+  | [], [], _, _, _, _, _, h => by
+    simp only [assignAllVals, Option.some.injEq, Prod.mk.injEq] at h
+    obtain ⟨_, h2, _⟩ := h; subst h2; exact AllOk_nil d
+  | [], _ :: _, _, _, _, _, _, h => by simp [assignAllVals] at h
+  | _ :: _, [], _, _, _, _, _, h => by simp [assignAllVals] at h
+  | lv :: lvs, (id, t) :: rs, nm, nm', next, n2, code, h => by
+    simp only [assignAllVals] at h
+    cases h1 : assignVal nm lv (.var id t.bits) t next with
+    | none => simp [h1] at h
+    | some q =>
+      obtain ⟨nm1, c1, n1⟩ := q
+      simp only [h1] at h
+      cases h2 : assignAllVals nm1 lvs rs n1 with
+      | none => simp [h2] at h
+      | some q2 =>
+        obtain ⟨nm2, c2, n3⟩ := q2
+        simp only [h2, Option.some.injEq, Prod.mk.injEq] at h
+        obtain ⟨_, e2, _⟩ := h
+        subst e2
+        exact AllOk_append (assignVal_ok d h1) (assignAllVals_ok d lvs rs nm1 nm2 n1 n3 c2 h2)
+
+theorem defineAllVals_ok (d : Bool) : ∀ (xs : List String) (rs : List (Nat × Ty)) (nm nm' : NEnv) (next n2 : Nat)
+    (code : List SInstr), defineAllVals nm xs rs next = some (nm', code, n2) → AllOk d code
+  | [], [], _, _, _, _, _, h => by
+    simp only [defineAllVals, Option.some.injEq, Prod.mk.injEq] at h
+    obtain ⟨_, h2, _⟩ := h; subst h2; exact AllOk_nil d
+  | [], _ :: _, _, _, _, _, _, h => by simp [defineAllVals] at h
+  | _ :: _, [], _, _, _, _, _, h => by simp [defineAllVals] at h
+  | x :: xs, (id, t) :: rs, nm, nm', next, n2, code, h => by
+    simp only [defineAllVals] at h
+    cases h2 : defineAllVals (nm.declare x (.val next t)) xs rs (next + 1) with
+    | none => simp [h2] at h
+    | some q2 =>
+      obtain ⟨nm2, c2, n3⟩ := q2
+      simp only [h2, Option.some.injEq, Prod.mk.injEq] at h
+      obtain ⟨_, e2, _⟩ := h
+      subst e2
+      exact AllOk_cons (instrOk_mov d _ _ _) (defineAllVals_ok d xs rs _ nm2 (next + 1) n3 c2 h2)
+
+theorem stmt_ok_succ (d : Bool) (P : Prog) (f : Nat) (ihE : EOk d P f) (ihC : CallOk d P f) (ihR : RetOk d P f)
+    (ihB : BOk d P f) (ihF : FOk d P f) : SOk d P (f + 1) := by
+  intro s nm next r h hd
+  cases s with
+  | decl x t init =>
+    cases init with
+    | none =>
+      simp only [lowerS, Option.some.injEq] at h
+      subst h
+      exact AllOk_one (instrOk_mov d _ _ _)
+    | some e =>
+      simp only [lowerS] at h
+      cases hl : lowerE P f nm e next with
+      | none => simp [hl] at h
+      | some q =>
+        obtain ⟨aa, te, ce, n1⟩ := q
+        simp only [hl] at h
+        split at h
+        · simp only [Option.some.injEq] at h
+          subst h
+          exact AllOk_append (ihE e nm next aa te ce n1 hl (by simpa [noDivS] using hd))
+            (AllOk_one (instrOk_mov d _ _ _))
+        · cases h
+  | define xs e =>
+    match xs, e, h, hd with
+    | [x], e, h, hd =>
+      simp only [lowerS] at h
+      cases hl : lowerE P f nm e next with
+      | none => simp [hl] at h
+      | some q =>
+        obtain ⟨aa, te, ce, n1⟩ := q
+        simp only [hl] at h
+        split at h
+        · cases h
+        · simp only [Option.some.injEq] at h
+          subst h
+          exact AllOk_append (ihE e nm next aa te ce n1 hl (by simpa [noDivS] using hd))
+            (AllOk_one (instrOk_mov d _ _ _))
+    | x :: y :: xs, .call g args, h, hd =>
+      simp only [lowerS] at h
+      cases hc : lowerCall P f nm g args next with
+      | none => simp [hc] at h
+      | some q =>
+        obtain ⟨rs, cc, n1⟩ := q
+        simp only [hc] at h
+        cases hdv : defineAllVals nm (x :: y :: xs) rs n1 with
+        | none => simp [hdv] at h
+        | some q2 =>
+          obtain ⟨nm', cd, n2⟩ := q2
+          simp only [hdv, Option.some.injEq] at h
+          subst h
+          exact AllOk_append (ihC nm g args next rs cc n1 hc (by simpa [noDivS, noDivE] using hd))
+            (defineAllVals_ok d _ _ _ _ _ _ _ hdv)
+    | [], _, h, _ => simp [lowerS] at h
+    | _ :: _ :: _, .lit _ _, h, _ => simp [lowerS] at h
+    | _ :: _ :: _, .var _, h, _ => simp [lowerS] at h
+    | _ :: _ :: _, .bin _ _ _, h, _ => simp [lowerS] at h
+    | _ :: _ :: _, .shift _ _ _, h, _ => simp [lowerS] at h
+    | _ :: _ :: _, .not _, h, _ => simp [lowerS] at h
+    | _ :: _ :: _, .neg _, h, _ => simp [lowerS] at h
+    | _ :: _ :: _, .cast _ _, h, _ => simp [lowerS] at h
+    | _ :: _ :: _, .idx _ _, h, _ => simp [lowerS] at h
+    | _ :: _ :: _, .fld _ _, h, _ => simp [lowerS] at h
+  | assign lvs e =>
+    match lvs, e, h, hd with
+    | [lv], e, h, hd =>
+      simp only [lowerS] at h
+      cases hl : lowerE P f nm e next with
+      | none => simp [hl] at h
+      | some q =>
+        obtain ⟨aa, te, ce, n1⟩ := q
+        simp only [hl] at h
+        cases ha : assignVal nm lv aa te n1 with
+        | none => simp [ha] at h
+        | some q2 =>
+          obtain ⟨nm', ca, n2⟩ := q2
+          simp only [ha, Option.some.injEq] at h
+          subst h
+          exact AllOk_append (ihE e nm next aa te ce n1 hl (by simpa [noDivS] using hd)) (assignVal_ok d ha)
+    | l1 :: l2 :: lvs, .call g args, h, hd =>
+      simp only [lowerS] at h
+      cases hc : lowerCall P f nm g args next with
+      | none => simp [hc] at h
+      | some q =>
+        obtain ⟨rs, cc, n1⟩ := q
+        simp only [hc] at h
+        cases hdv : assignAllVals nm (l1 :: l2 :: lvs) rs n1 with
+        | none => simp [hdv] at h
+        | some q2 =>
+          obtain ⟨nm', cd, n2⟩ := q2
+          simp only [hdv, Option.some.injEq] at h
+          subst h
+          exact AllOk_append (ihC nm g args next rs cc n1 hc (by simpa [noDivS, noDivE] using hd))
+            (assignAllVals_ok d _ _ _ _ _ _ _ hdv)
+    | [], _, h, _ => simp [lowerS] at h
+    | _ :: _ :: _, .lit _ _, h, _ => simp [lowerS] at h
+    | _ :: _ :: _, .var _, h, _ => simp [lowerS] at h
+    | _ :: _ :: _, .bin _ _ _, h, _ => simp [lowerS] at h
+    | _ :: _ :: _, .shift _ _ _, h, _ => simp [lowerS] at h
+    | _ :: _ :: _, .not _, h, _ => simp [lowerS] at h
+    | _ :: _ :: _, .neg _, h, _ => simp [lowerS] at h
+    | _ :: _ :: _, .cast _ _, h, _ => simp [lowerS] at h
+    | _ :: _ :: _, .idx _ _, h, _ => simp [lowerS] at h
+    | _ :: _ :: _, .fld _ _, h, _ => simp [lowerS] at h
+  | ifte c th el =>
+    simp only [lowerS] at h
+    cases hl : lowerE P f nm c next with
+    | none => simp [hl] at h
+    | some q =>
+      obtain ⟨ac, tc, cc, n1⟩ := q
+      simp only [hl] at h
+      cases ac with
+      | var cid cw =>
+        cases tc with
+        | bool =>
+          simp only at h
+          cases hlt : lowerB P f ([] :: nm) n1 th with
+          | none => simp [hlt] at h
+          | some rt =>
+            simp only [hlt] at h
+            cases hlf : lowerB P f ([] :: nm) rt.next el with
+            | none => simp [hlf] at h
+            | some rf =>
+              simp only [hlf] at h
+              cases hj : joinN cid (popN rt.nms) (popN rf.nms) rf.next with
+              | none => simp [hj] at h
+              | some q2 =>
+                obtain ⟨nms', cm, n4⟩ := q2
+                simp only [hj, Option.some.injEq] at h
+                subst h
+                have hdc : d = true ∨ noDivE c = true :=
+                  or_imp hd (fun e => by simp only [noDivS, Bool.and_eq_true] at e; exact e.1.1)
+                have hdt : d = true ∨ noDivB th = true :=
+                  or_imp hd (fun e => by simp only [noDivS, Bool.and_eq_true] at e; exact e.1.2)
+                have hdf : d = true ∨ noDivB el = true :=
+                  or_imp hd (fun e => by simp only [noDivS, Bool.and_eq_true] at e; exact e.2)
+                exact AllOk_append (AllOk_append (AllOk_append (ihE c nm next _ _ cc n1 hl hdc)
+                  (ihB th _ n1 rt hlt hdt)) (ihB el _ rt.next rf hlf hdf)) (joinN_ok d cid _ _ _ nms' cm n4 hj)
+        | int _ => simp at h
+        | uint _ => simp at h
+        | arr _ _ => simp at h
+        | struct _ => simp at h
+      | const _ _ _ _ _ => simp at h
+      | pat _ _ => simp at h
+      | k _ => simp at h
+  | «for» i lo c hi stp body =>
+    simp only [lowerS] at h
+    exact ihF i lo c hi stp body nm next r h (by simpa [noDivS] using hd)
+  | ret es =>
+    simp only [lowerS] at h
+    cases hl : lowerRet P f nm es next with
+    | none => simp [hl] at h
+    | some q =>
+      obtain ⟨rs, code, n1⟩ := q
+      simp only [hl, Option.some.injEq] at h
+      subst h
+      exact ihR es nm next rs code n1 hl (by simpa [noDivS] using hd)
+
+theorem block_ok_succ (d : Bool) (P : Prog) (f : Nat) (ihS : SOk d P f) (ihB : BOk d P f) : BOk d P (f + 1) := by
+  intro ss nm next r h hd
+  cases ss with
+  | nil =>
+    simp only [lowerB, Option.some.injEq] at h
+    subst h
+    exact AllOk_nil d
+  | cons s ss =>
+    simp only [lowerB] at h
+    have hds : d = true ∨ noDivS s = true :=
+      or_imp hd (fun e => by simp only [noDivB, Bool.and_eq_true] at e; exact e.1)
+    have hdss : d = true ∨ noDivB ss = true :=
+      or_imp hd (fun e => by simp only [noDivB, Bool.and_eq_true] at e; exact e.2)
+    cases hs : lowerS P f nm next s with
+    | none => simp [hs] at h
+    | some r1 =>
+      simp only [hs] at h
+      cases hrn : r1.nms with
+      | none =>
+        simp only [hrn] at h
+        cases ss with
+        | nil =>
+          simp only [Option.some.injEq] at h
+          subst h
+          exact ihS s nm next r1 hs hds
+        | cons _ _ => simp at h
+      | some nm1 =>
+        simp only [hrn] at h
+        cases hb : lowerB P f nm1 r1.next ss with
+        | none => simp [hb] at h
+        | some r2 =>
+          simp only [hb, Option.some.injEq] at h
+          subst h
+          exact AllOk_append (ihS s nm next r1 hs hds) (ihB ss nm1 r1.next r2 hb hdss)
+
+theorem for_ok_succ (d : Bool) (P : Prog) (f : Nat) (ihB : BOk d P f) (ihF : FOk d P f) : FOk d P (f + 1) := by
+  intro i cur c hi stp body nm next r h hd
+  simp only [lowerFor] at h
+  split at h
+  · split at h
+    · cases hb : lowerB P f ([(i, .konst cur.toNat)] :: nm) next body with
+      | none => simp [hb] at h
+      | some r1 =>
+        simp only [hb] at h
+        cases hrn : popN r1.nms with
+        | none =>
+          simp only [hrn, Option.some.injEq] at h
+          subst h
+          exact ihB body _ next r1 hb hd
+        | some nm1 =>
+          simp only [hrn] at h
+          cases hl2 : lowerFor P f i (cur + stp) c hi stp body nm1 r1.next with
+          | none => simp [hl2] at h
+          | some r2 =>
+            simp only [hl2, Option.some.injEq] at h
+            subst h
+            exact AllOk_append (ihB body _ next r1 hb hd) (ihF i (cur + stp) c hi stp body nm1 r1.next r2 hl2 hd)
+    · cases h
+  · simp only [Option.some.injEq] at h
+    subst h
+    exact AllOk_nil d
+
+/-- All instructions the lowering emits are well formed, and division-free when
+the source program is. -/
+theorem lower_all_ok (d : Bool) (P : Prog) (hP : d = true ∨ noDivP P = true) : ∀ f : Nat,
+    EOk d P f ∧ ArgsOk d P f ∧ CallOk d P f ∧ RetOk d P f ∧ SOk d P f ∧ BOk d P f ∧ FOk d P f := by
   intro f
   induction f with
-  | zero => refine ⟨?_, ?_, ?_⟩ <;> intros <;> simp_all [lowerS, lowerB, lowerFor]
+  | zero =>
+    refine ⟨?_, ?_, ?_, ?_, ?_, ?_, ?_⟩
+    · intro e nm next aa t code next' h; simp [lowerE] at h
+    · intro es nm next avs code next' h; simp [lowerArgs] at h
+    · intro nm g args next rs code next' h; simp [lowerCall] at h
+    · intro es nm next rs code next' h; simp [lowerRet] at h
+    · intro s nm next r h; simp [lowerS] at h
+    · intro ss nm next r h; simp [lowerB] at h
+    · intro i cur c hi stp body nm next r h; simp [lowerFor] at h
   | succ f ih =>
-    obtain ⟨ihS, ihB, ihF⟩ := ih
-    refine ⟨?_, ?_, ?_⟩
-    · intro s nm next r h hd
-      cases s with
-      | decl x t init =>
-        cases init with
-        | none =>
-          simp only [lowerS] at h
-          cases hz : zeroArg t with
-          | none => simp [hz] at h
-          | some z =>
-            cases hw : sbits t with
-            | none => simp [hz, hw] at h
-            | some w =>
-              simp only [hz, hw, Option.some.injEq] at h
-              subst h
-              exact AllOk_one (instrOk_mov d _ _ _)
-        | some e =>
-          simp only [lowerS] at h
-          cases hl : lowerE nm e next with
-          | none => simp [hl] at h
-          | some q =>
-            obtain ⟨aa, te, ce, n1⟩ := q
-            simp only [hl] at h
-            cases hw : sbits t with
-            | none => simp [hw] at h
-            | some w =>
-              simp only [hw] at h
-              split at h
-              · simp only [Option.some.injEq] at h
-                subst h
-                exact AllOk_append (lowerE_ok d e nm next aa te ce n1 hl (by simpa [noDivS] using hd))
-                  (AllOk_one (instrOk_mov d _ _ _))
-              · cases h
-      | define xs e =>
-        match xs, h with
-        | [x], h =>
-          simp only [lowerS] at h
-          cases hl : lowerE nm e next with
-          | none => simp [hl] at h
-          | some q =>
-            obtain ⟨aa, te, ce, n1⟩ := q
-            simp only [hl] at h
-            split at h
-            · cases h
-            · cases hw : sbits te with
-              | none => simp [hw] at h
-              | some w =>
-                simp only [hw, Option.some.injEq] at h
-                subst h
-                exact AllOk_append (lowerE_ok d e nm next aa te ce n1 hl (by simpa [noDivS] using hd))
-                  (AllOk_one (instrOk_mov d _ _ _))
-        | [], h => simp [lowerS] at h
-        | _ :: _ :: _, h => simp [lowerS] at h
-      | assign lvs e =>
-        match lvs, h with
-        | [⟨x, []⟩], h =>
-          simp only [lowerS] at h
-          cases hf0 : nm.find x with
-          | none => simp [hf0] at h
-          | some b0 =>
-            cases b0 with
-            | konst _ => simp [hf0] at h
-            | val id0 tx =>
-              cases hl : lowerE nm e next with
-              | none => simp [hf0, hl] at h
-              | some q =>
-                obtain ⟨aa, te, ce, n1⟩ := q
-                simp only [hf0, hl] at h
-                cases hw : sbits tx with
-                | none => simp [hw] at h
-                | some w =>
-                  cases hset : nm.set x (.val n1 tx) with
-                  | none => simp [hw, hset] at h
-                  | some nm' =>
-                    simp only [hw, hset] at h
-                    split at h
-                    · simp only [Option.some.injEq] at h
-                      subst h
-                      exact AllOk_append (lowerE_ok d e nm next aa te ce n1 hl (by simpa [noDivS] using hd))
-                        (AllOk_one (instrOk_mov d _ _ _))
-                    · cases h
-        | [], h => simp [lowerS] at h
-        | ⟨_, _ :: _⟩ :: _, h => simp [lowerS] at h
-        | ⟨_, []⟩ :: _ :: _, h => simp [lowerS] at h
-      | ifte c th el =>
-        simp only [lowerS] at h
-        cases hl : lowerE nm c next with
-        | none => simp [hl] at h
-        | some q =>
-          obtain ⟨ac, tc, cc, n1⟩ := q
-          simp only [hl] at h
-          cases ac with
-          | var cid cw =>
-            cases tc with
-            | bool =>
-              simp only at h
-              cases hlt : lowerB f ([] :: nm) n1 th with
-              | none => simp [hlt] at h
-              | some rt =>
-                simp only [hlt] at h
-                cases hlf : lowerB f ([] :: nm) rt.next el with
-                | none => simp [hlf] at h
-                | some rf =>
-                  simp only [hlf] at h
-                  cases hj : joinN cid (popN rt.nms) (popN rf.nms) rf.next with
-                  | none => simp [hj] at h
-                  | some q2 =>
-                    obtain ⟨nms', cm, n4⟩ := q2
-                    simp only [hj, Option.some.injEq] at h
-                    subst h
-                    have hdc : d = true ∨ noDivE c = true := by
-                      rcases hd with e | e
-                      · exact Or.inl e
-                      · simp only [noDivS, Bool.and_eq_true] at e; exact Or.inr e.1.1
-                    have hdt : d = true ∨ noDivB th = true := by
-                      rcases hd with e | e
-                      · exact Or.inl e
-                      · simp only [noDivS, Bool.and_eq_true] at e; exact Or.inr e.1.2
-                    have hdf : d = true ∨ noDivB el = true := by
-                      rcases hd with e | e
-                      · exact Or.inl e
-                      · simp only [noDivS, Bool.and_eq_true] at e; exact Or.inr e.2
-                    exact AllOk_append (AllOk_append (AllOk_append (lowerE_ok d c nm next _ _ cc n1 hl hdc)
-                      (ihB th _ n1 rt hlt hdt)) (ihB el _ rt.next rf hlf hdf)) (joinN_ok d cid _ _ _ nms' cm n4 hj)
-            | int _ => simp at h
-            | uint _ => simp at h
-            | arr _ _ => simp at h
-            | struct _ => simp at h
-          | const _ _ _ _ _ => simp at h
-          | pat _ _ => simp at h
-          | k _ => simp at h
-      | «for» i lo c hi stp body =>
-        simp only [lowerS] at h
-        exact ihF i lo c hi stp body nm next r h (by simpa [noDivS] using hd)
-      | ret es =>
-        simp only [lowerS] at h
-        cases hl : lowerRet nm es next with
-        | none => simp [hl] at h
-        | some q =>
-          obtain ⟨rs, code, n1⟩ := q
-          simp only [hl, Option.some.injEq] at h
-          subst h
-          exact lowerRet_ok d es nm next rs code n1 hl (by simpa [noDivS] using hd)
-    · intro ss nm next r h hd
-      cases ss with
-      | nil =>
-        simp only [lowerB, Option.some.injEq] at h
-        subst h
-        exact AllOk_nil d
-      | cons s ss =>
-        simp only [lowerB] at h
-        have hds : d = true ∨ noDivS s = true := by
-          rcases hd with e | e
-          · exact Or.inl e
-          · simp only [noDivB, Bool.and_eq_true] at e; exact Or.inr e.1
-        have hdss : d = true ∨ noDivB ss = true := by
-          rcases hd with e | e
-          · exact Or.inl e
-          · simp only [noDivB, Bool.and_eq_true] at e; exact Or.inr e.2
-        cases hs : lowerS f nm next s with
-        | none => simp [hs] at h
-        | some r1 =>
-          simp only [hs] at h
-          cases hrn : r1.nms with
-          | none =>
-            simp only [hrn] at h
-            cases ss with
-            | nil =>
-              simp only [Option.some.injEq] at h
-              subst h
-              exact ihS s nm next r1 hs hds
-            | cons _ _ => simp at h
-          | some nm1 =>
-            simp only [hrn] at h
-            cases hb : lowerB f nm1 r1.next ss with
-            | none => simp [hb] at h
-            | some r2 =>
-              simp only [hb, Option.some.injEq] at h
-              subst h
-              exact AllOk_append (ihS s nm next r1 hs hds) (ihB ss nm1 r1.next r2 hb hdss)
-    · intro i cur c hi stp body nm next r h hd
-      simp only [lowerFor] at h
-      split at h
-      · split at h
-        · cases hb : lowerB f ([(i, .konst cur.toNat)] :: nm) next body with
-          | none => simp [hb] at h
-          | some r1 =>
-            simp only [hb] at h
-            cases hrn : popN r1.nms with
-            | none =>
-              simp only [hrn, Option.some.injEq] at h
-              subst h
-              exact ihB body _ next r1 hb hd
-            | some nm1 =>
-              simp only [hrn] at h
-              cases hl2 : lowerFor f i (cur + stp) c hi stp body nm1 r1.next with
-              | none => simp [hl2] at h
-              | some r2 =>
-                simp only [hl2, Option.some.injEq] at h
-                subst h
-                exact AllOk_append (ihB body _ next r1 hb hd) (ihF i (cur + stp) c hi stp body nm1 r1.next r2 hl2 hd)
-        · cases h
-      · simp only [Option.some.injEq] at h
-        subst h
-        exact AllOk_nil d
+    obtain ⟨ihE, ihA, ihC, ihR, ihS, ihB, ihF⟩ := ih
+    exact ⟨expr_ok_succ d P f ihE ihC, args_ok_succ d P f ihE ihA, call_ok_succ d P hP f ihA ihB,
+      ret_ok_succ d P f ihE ihR, stmt_ok_succ d P f ihE ihC ihR ihB ihF, block_ok_succ d P f ihS ihB,
+      for_ok_succ d P f ihB ihF⟩
 
 /-- An instruction that is not a division cannot fail. -/
 theorem instrTotal_step (i : SInstr) (h : instrOk false i = true) (st : Nat → Nat) :
@@ -634,7 +912,18 @@ theorem instrTotal_step (i : SInstr) (h : instrOk false i = true) (st : Nat → 
         obtain ⟨y, wy⟩ := pb
         obtain ⟨z, wz⟩ := pc
         cases op <;> first | (simp at hm; done) | exact ⟨_, rfl⟩
-      | _ :: _ :: _ :: _ :: _, hm => cases op <;> simp at hm
+      | [a, b, c, e], hm =>
+        simp only [List.map_cons, List.map_nil]
+        generalize argVal st a = pa
+        generalize argVal st b = pb
+        generalize argVal st c = pc
+        generalize argVal st e = pe
+        obtain ⟨x, wx⟩ := pa
+        obtain ⟨y, wy⟩ := pb
+        obtain ⟨z, wz⟩ := pc
+        obtain ⟨u, wu⟩ := pe
+        cases op <;> first | (simp at hm; done) | exact ⟨_, rfl⟩
+      | _ :: _ :: _ :: _ :: _ :: _, hm => cases op <;> simp at hm
     obtain ⟨v, hv⟩ := this
     exact ⟨_, ssaSteps_one_mk hv⟩
 
